@@ -265,8 +265,8 @@ func propC14(r *Run, w *World) {
 				}
 			}
 			okErr := false
-			for _, ret := range returnsOf(fn) {
-				if HoldsAt(ret.Block(), NegLit(want)) && !isNilConst(ret.Results[0]) {
+			for _, ret := range retEdges(fn) {
+				if ret.Holds(NegLit(want)) && !isNilConst(ret.Results[0]) {
 					okErr = true
 				}
 			}
@@ -291,14 +291,14 @@ func propC14(r *Run, w *World) {
 			// some If on one of these whose true edge returns an error, and all success returns under the negation
 			for _, cand := range cands {
 				errOK, succOK, nSucc := false, true, 0
-				for _, ret := range returnsOf(parse) {
-					ev, _ := errResult(ret)
-					if HoldsAt(ret.Block(), cand) && ev != nil && !isNilConst(ev) {
+				for _, ret := range retEdges(parse) {
+					ev, _ := errResultE(ret)
+					if ret.Holds(cand) && ev != nil && !isNilConst(ev) {
 						errOK = true
 					}
 					if ev != nil && isNilConst(ev) {
 						nSucc++
-						if !HoldsAt(ret.Block(), NegLit(cand)) {
+						if !ret.Holds(NegLit(cand)) {
 							succOK = false
 						}
 					}
